@@ -4,7 +4,7 @@
            formula tokens: aN | ! f | & f g | "|" f g | > f g | X f | U f g | F f | G f
    output: <outcome A|G|Rn> <spec 0|1> <top_until><early_fragment> <verdicts TtfF*> <ext>
            ext = "-" unless the outcome is a rejection strictly before the end of the trace; then
-           a continuation (rows) of the steps seen that satisfies the formula, or "none"
+           "sat:<rows>" = a continuation of the steps seen that satisfies the formula, or "none"
            (bounded search: at most kext further steps) *)
 open Model
 open Zio
@@ -56,7 +56,7 @@ let handle (line:string) : string =
   let ext = (match cut with
     | None -> "-"
     | Some c -> (match sat_ext f (firstn c tr) (nat_of_int natoms) (nat_of_int kext) with
-                 | Some w -> string_of_trace w ^ (if w = [] then "" else "")
+                 | Some w -> "sat:" ^ (match w with [] -> "" | _ -> string_of_trace w)
                  | None -> "none")) in
   String.concat " " [os; spec; frag; (if vs = "" then "-" else vs); ext]
 
